@@ -119,6 +119,10 @@ static struct AdfList * adfGetDirEntCacheBudget_ ( struct AdfVolume * const vol,
                 return NULL;
             }
             entry->sector = (int32_t) caEntry.header;
+            /* not recorded in the cache: the directory read is the parent,
+               the target of a link is only in its header block */
+            entry->parent = dir;
+            entry->real = 0;
             entry->comment = strdup(caEntry.comm);
             if (entry->comment==NULL) {
                 free(entry->name); adfFreeDirList(head);
